@@ -44,16 +44,18 @@ CLAIMED = {
                  'prefix-related names, "/" and NUL-bearing ids.', 'DESIGN.md section 6 C12'),
     'C07': chain('On every EndBlock step: spendable balance of the burn address drops to zero, supply shrinks by exactly that per denomination, nobody else changes, block not halted, '
                  'all crisis invariants hold (asserted on the real keeper); plus the accounting identity as an invariant. Deposits by Send/MultiSend/vesting creation, two denominations, '
-                 'amounts 0/1/7/1000 in units of 1 and 10^30, minting on and off.', 'DESIGN.md section 6 C07'),
+                 'amounts 0/1/7/1000 in units of 1 and 10^30, minting on and off; plus the route that needs no transaction in the arrival block: a governance community-pool spend to the burn address '
+                 '(GovSchedule in the specification, realised by real fund/submit/vote transactions; executed by x/gov inside EndBlock) must be burned in the same EndBlock.', 'DESIGN.md sections 0.2 and 6 C07'),
     'C08': chain('ExportImportBegin is an action enabled at every block boundary of histories over all three custom modules; on the real app: export twice (byte equality), module '
-                 'ValidateGenesis, InitChain on a fresh app, every custom query before/after, re-export equality, raw store equality.', 'DESIGN.md section 6 C08'),
+                 'ValidateGenesis, InitChain on a fresh app, every custom query before/after, re-export equality, raw store equality. Genesis.tla transcribes export/validate/import of the three modules: '
+                 'TLC checks import(export(s)) = s on every reachable state and Trace.tla checks that the REAL exported genesis is Genesis!Gen of the observed state; histories include a registry with 150 bulk entries.', 'DESIGN.md sections 0.1 and 6 C08'),
     'C10': dict(tech='TLA+ model checking (TLC) of Node.tla enumerating all crash/restart schedules + trace validation (NodeTrace.tla) of each schedule executed on the real application against a never-stopped twin',
                 text='Node.tla models the ABCI life cycle of one node with Crash enabled in every phase and Restart on the same database; TLC checks that the database always equals the '
                      'never-stopped twin and enumerates EVERY complete schedule (<=2 crashes) for small block shapes, plus one-crash schedules around rolled-back multi-message transactions. '
                      'Each schedule is executed on the real app (drop the app object without Commit, app.New on the same DB) with TLC-simulated Panacea block histories; NodeTrace.tla checks '
                      'every logged event is the Node action of that name and that height, app hash, store digest and every DeliverTx result equal the twin.',
                 ref='DESIGN.md section 6 C10',
-                note='Crash = loss of the process between ABCI calls (MemDB survives); torn writes inside Commit are out of scope. One known finding in the pinned cosmos-sdk (pre-ante gasUsed) is listed in known_findings.json.'),
+                note='Crash = loss of the process between ABCI calls (MemDB survives); torn writes inside Commit are out of scope. One known finding in the pinned cosmos-sdk (pre-ante gasUsed) is listed in known_findings.json. The application is constructed as the node does (app.New with loadLatest=true) and the twin is never restarted.'),
     'C19': dict(tech='TLA+ model checking (TLC): Upgrades.tla on constants extracted from the code (static) + Node.tla schedules with the planned upgrade, validated by NodeTrace.tla on the real application (dynamic)',
                 text='Static: Upgrades.tla walks the ordered descriptors (compiled app.Upgrades) from the baseline declared by the first handler to the mounted store set (app.GetKVStoreKey) and checks '
                      'each step adds only absent and deletes only present stores and that the final set equals the mounted one. Dynamic: every crash/restart schedule of Node.tla (restart before, at, '
@@ -66,9 +68,9 @@ CLAIMED = {
                 text='In the specification CheckTx/Simulate/Query/clean-restart noise leaves the replicated state untouched by construction (that IS the property); TLC enumerates every schedule of noise '
                      '(which, where, how often). The deciding step is the binding: for each job two different schedules are executed on two independently constructed real application instances - '
                      'replica B in another OS process started later with GOMAXPROCS=1 - over TLC-simulated block histories in which an accepted transaction is left out and only checked/simulated '
-                     '(alone and merged with its successors); ReplicasTrace.tla compares app hash, per-transaction code/data/gas/events, EndBlock events, store digest and ABCI query answers at every height.',
+                     '(alone and merged with its successors), and from every valid genesis value enumerated by GenesisMC.tla (zero timestamps, tombstones, legacy entries, inconsistent counters); ReplicasTrace.tla compares app hash, per-transaction code/data/gas/events, EndBlock events, store digest and ABCI query answers at every height.',
                 ref='DESIGN.md section 6 C09',
-                note='Hardware parallelism is varied only through GOMAXPROCS and process identity; other CPU architectures are out of reach. Quick tier samples the enumerated schedules (thorough uses thousands).'),
+                note='Hardware parallelism is varied only through GOMAXPROCS and process identity; other CPU architectures are out of reach. Quick tier samples the enumerated schedules (thorough uses thousands). The pre-ante gasUsed finding of C10 is also seen here (restarted vs never-restarted replica) and listed for C09 as well.'),
     'C20': dict(tech='TLA+ model checking (TLC): KeyStoreLocks.tla on lock programs measured from the real key store (deadlocks replayed with scheduler gates), Snapshot.tla + SnapshotTrace.tla on concurrent real runs; go -race as auxiliary detector',
                 text='Key store: hooks (build tag verif) report each mutex acquisition; the harness measures the lock program of every public operation path, TLC explores all interleavings of 3 '
                      'concurrent calls under Go RWMutex semantics (writer preference); a model deadlock is replayed on the real key store with gates and only a confirmed hang is a violation. '
